@@ -126,6 +126,7 @@ pub fn build() -> Vec<TypeOps> {
 	t!(v, "derived"; SNamed, STuple, SGeneric<u16>, SGeneric<String>, EFields, TNewtypeS, List, Tree, MapRec, SGenCompact<u16>, SGenCompact<u64>);
 	t!(v, "derived"; SUnit, SCompact, SEncodedAs, SSkip, SSingle, SAllSkip, EDisc, EBoth, TNewtype, TNewtypeZ, TCompact, TEncAs, TSkip);
 	t!(v, "derived"; Compact<Wrapped>);
+	t!(v, "derived"; Compact<Narrow>, Vec<Compact<Narrow>>, Option<Compact<Narrow>>, (Compact<Narrow>, u8), [Compact<Narrow>; 3], SNarrow, Vec<SNarrow>);
 	t!(v, "derived"; Vec<SNamed>, Option<EFields>, BTreeMap<u8, SCompact>, [STuple; 2], Box<List>, Vec<EDisc>, Vec<EBoth>, Box<TNewtype>, Box<TNewtypeZ>, Box<TNewtypeS>, [TNewtype; 2], Vec<SSingle>, (SSkip, SEncodedAs), Rc<Tree>, Vec<Tree>);
 	t!(v, "derived"; Box<TCompact>, [TCompact; 3], Arc<TEncAs>, [TEncAs; 2], Box<TSkip>, [TSkip; 2], Box<SCompact>, Option<EDisc>);
 
